@@ -150,21 +150,12 @@ class Check:
         if p.is_alive():
             p.kill()
         r['time'] = round(time.time() - t0, 2)
-        if r.get('verdict') == 'violated' and ob.replay is not None:
-            try:
-                conf, info = ob.replay(r.get('model') or {})
-                r['confirmed'] = bool(conf); r['replay_info'] = info
-                if conf:
-                    rd = os.path.join(VERIF, 'replays'); os.makedirs(rd, exist_ok=True)
-                    rp = os.path.join(rd, '%s.%s.json' % (s.prop, ob.oid.replace('/', '_')))
-                    jdump(rp, {'property': s.prop, 'obligation': ob.oid, 'model': r.get('model'), 'native': info})
-                    r['replay'] = rp
-                else:
-                    r['verdict'] = 'unconfirmed'
-            except Exception:
-                r['verdict'] = 'unconfirmed'; r['replay_info'] = traceback.format_exc()[-800:]
-        elif r.get('verdict') == 'violated':
-            r['verdict'] = 'unconfirmed'; r['replay_info'] = 'no native replay defined for this obligation'
+        if r.get('verdict') == 'violated':      # confirmed natively inside the worker (symcase.replay)
+            rd = os.path.join(VERIF, 'replays'); os.makedirs(rd, exist_ok=True)
+            rp = os.path.join(rd, '%s.%s.json' % (s.prop, ob.oid.replace('/', '_')))
+            jdump(rp, {'property': s.prop, 'obligation': ob.oid, 'counterexample': r.get('model'),
+                       'how': 'inputs of the z3 model, rounded to the element type, passed to the natively compiled real wrapper; claim re-evaluated on the returned values'})
+            r['replay'] = rp
         return r
 
     def run_all(s, jobs=None):
@@ -220,6 +211,7 @@ class Check:
                             'backend': r.get('backend'), 'solver_s': r.get('time'), 'witness': r.get('witness'),
                             **({'paths': r.get('paths'), 'queries': r.get('queries')} if ob.kind == 'sym' else {'unwind': ob.unwind}),
                             **({'detail': r.get('detail')} if r.get('detail') and r.get('verdict') != 'holds' else {}),
+                            **({'subresults': r.get('subresults')} if r.get('subresults') and r.get('verdict') != 'holds' else {}),
                             **({'replay': r.get('replay'), 'inputs': r.get('inputs') or r.get('model')} if r.get('verdict') in ('violated', 'unconfirmed', 'ub-suspect') else {})})
         nq = sum((ob.result or {}).get('queries', 1) + (1 if ob.kind == 'cbmc' and ob.witness else 0) for ob in s.obs)
         ev = {
